@@ -26,7 +26,7 @@ Theorem check_sound c exp :
   check c = [] ->
   k_final c = FAlive /\ Forall2 (fun d o => deliv_equiv d o = true) exp (k_obs c).
 Proof.
-  intros Hin Hs Hc. unfold check in Hc. rewrite Hin in Hc. cbn [negb] in Hc.
+  intros Hin Hs Hc. unfold check in Hc. rewrite Hin in Hc.
   destruct (k_final c); try discriminate. split; [reflexivity|].
   eapply walk_sound; eauto.
 Qed.
@@ -250,3 +250,49 @@ Proof.
   apply andb_true_iff in Ha as [Ha1 Ha2]. split; [exact Ha1|].
   destruct (k_final c); cbn in Ha2; congruence.
 Qed.
+
+(* ========================================================================
+   WHAT THE PINNED CODE DOES OUTSIDE THE HYPOTHESES, JUDGED BY THE TEXT.
+   Three witnesses; in each the observation is the model's own run (so [agree]
+   holds by construction) and the property checker, reading the text literally,
+   reports a clause.  They are recorded as known findings of C04.
+   ======================================================================== *)
+
+Definition wit_tree : tree := T 0 0 [T 1 1 []; T 2 2 []; T 3 3 [T 4 4 []]].
+Definition wit_msg (key from pl : nat) : inj := I 0 (PKey key) None (Some from) false None 2 pl.
+Definition wit_case (t : tree) (l : list inj) : case :=
+  C t [0] l (project l (run code_variant {| c_tree := t; c_insts := [0]; c_regs := std_regs |} l)) FAlive.
+Definition two_children : tree := T 0 0 [T 1 1 []; T 2 2 []].
+
+(* (i) rounds mix: child 1 sends its second message before child 2 has sent its
+   first; completion by count delivers [11; 12] -- two messages of child 1,
+   none of child 2 -- although the first batch due is {11, 21} *)
+Theorem rounds_mix_refuted :
+  let c := wit_case two_children [wit_msg 1 1 11; wit_msg 1 1 12; wit_msg 2 2 21; wit_msg 2 2 22] in
+  agree c = true /\ in_scope c = false /\ check c = [4] /\
+  k_obs c = [D 0 2 true [E (OPos 1) 11; E (OPos 1) 12]; D 0 2 true [E (OPos 2) 21; E (OPos 2) 22]].
+Proof. vm_compute. repeat split. Qed.
+
+(* (ii) a member that is not a child takes a child's place: node 4 (a grandchild)
+   sends the type; the batch [11; 41] leaves before children 2 and 3 have answered *)
+Theorem nonchild_refuted :
+  let c := wit_case wit_tree [wit_msg 1 1 11; wit_msg 4 4 41; wit_msg 2 2 21; wit_msg 3 3 31] in
+  agree c = true /\ in_scope c = false /\ check c = [4] /\
+  k_obs c = [D 0 2 true [E (OPos 1) 11; E (OPos 4) 41; E (OPos 2) 21]].
+Proof. vm_compute. repeat split. Qed.
+
+(* (iii) a poisoned batch is dropped whole: server 2 sends a message claiming to
+   be child 1; it is counted, the batch [spoof; 21] fails the sender check and is
+   thrown away (C02 is respected), and the genuine message of child 1 then waits
+   for ever: every child has sent one message and the handler received nothing *)
+Theorem poisoned_refuted :
+  let c := wit_case two_children [wit_msg 2 1 11; wit_msg 2 2 21; wit_msg 1 1 12] in
+  agree c = true /\ in_scope c = false /\ check c = [1] /\ k_obs c = [].
+Proof. vm_compute. repeat split. Qed.
+
+(* the literal reading accepts a node that keeps the rounds apart although the
+   children pipeline them (so the clause is not unsatisfiable) *)
+Example text_reading_satisfiable :
+  check (C two_children [0] [wit_msg 1 1 11; wit_msg 1 1 12; wit_msg 2 2 21; wit_msg 2 2 22]
+           [D 0 2 true [E (OPos 1) 11; E (OPos 2) 21]; D 0 2 true [E (OPos 2) 22; E (OPos 1) 12]] FAlive) = [].
+Proof. vm_compute. reflexivity. Qed.
